@@ -70,8 +70,12 @@ def run(ctx):
     st = [e for e in s.stores() if e.sub and e.attr and e.attr.startswith("$")]
     two = {T.ige(T.call("len", (oc,)), 2), T.b_not(T.ige(T.call("len", (oc,)), 3))}
     branches = {}
+
+    def is_len_test(c):
+        x = c[1] if c[0] == "not" else c
+        return x[0] == "ige" and x[1][0] == "call" and x[1][1] == "len"
     for e in st:
-        cs = set(e.conds()) - two
+        cs = {c for c in e.conds() if not is_len_test(c)}
         if len(cs) != 1:
             raise AnalysisError(f"{ctx.where(gr, e.node)}: row store under {len(cs)} orientation conditions - unsupported shape")
         branches.setdefault(next(iter(cs)), {})[e.key] = e.value
@@ -222,6 +226,7 @@ def run(ctx):
 
 _P, _G, _E = "forsys/pmatrix.py", "forsys/general_matrix.py", "forsys/edge.py"
 PINNED = [
+    ("row columns from the sorted cell ids", _P, "        big_edge_cells = big_edge.own_cells\n", "        big_edge_cells = sorted(big_edge.own_cells)\n"),
     ("normalized curvature in the rhs", _P, "curvature = big_edge.calculate_total_curvature(normalized=False)", "curvature = big_edge.calculate_total_curvature(normalized=True)"),
     ("both entries +1 in one branch", _P, "            lhs_row[c1_position] = 1\n            lhs_row[c2_position] = -1", "            lhs_row[c1_position] = 1\n            lhs_row[c2_position] = 1"),
     ("branches identical (orientation ignored)", _P, "            lhs_row[c1_position] = -1\n            lhs_row[c2_position] = 1", "            lhs_row[c1_position] = 1\n            lhs_row[c2_position] = -1"),
